@@ -348,7 +348,7 @@ package server
 //@   at-call s.roaManager.DeleteServer( requires called(JoinHostPort)
 //@ func (*roaManager).Disable
 //@   claims at-call
-//@   at-call m.table.DeleteAll( requires arg0 == network
+//@   at-call m.table.DeleteAll( requires arg1 == network
 // one lifetime timer per cache: a timer that is armed is stopped before another one takes its place - a leaked timer
 // fires while the session is up and synchronised and deletes every record of the cache
 //@ func (*roaManager).HandleROAEvent
